@@ -443,7 +443,10 @@ PauseRead(a) == /\ ~wr.paused[a] /\ conn[a] \in {"Checking", "Connected", "Disco
 ResumeRead(a) == /\ wr.paused[a]
                  /\ rd' = [NoReads EXCEPT ![a] = [k \in 1..Len(wr.buf[a]) |-> wr.buf[a][k][1]]]
                  /\ wr' = [wr EXCEPT !.paused[a] = FALSE, !.grace[a] = FALSE, !.buf[a] = <<>>] /\ CoreSame /\ UNCHANGED <<lastRx, dnet>>
-ForgedData == UNION {{[from |-> "X", src |-> s, dst |-> NatMap[Loc[b][1]], pid |-> wr.n + 1, len |-> PLen] : s \in {"x9", NatMap[Loc[Other(b)][1]]}} : b \in Agents}
+\* forged application data: from the attacker's address or from (the public form of) any of the peer's addresses - also one the
+\* receiver's remote IP filter rejects, which has then never become a remote candidate whatever checks it sent
+ForgedData == UNION {{[from |-> "X", src |-> s, dst |-> NatMap[Loc[b][1]], pid |-> wr.n + 1, len |-> PLen] :
+                        s \in {"x9"} \cup {NatMap[Loc[Other(b)][k]] : k \in 1..Len(Loc[Other(b)])}} : b \in Agents}
 DataIdle == UNCHANGED <<dnet, wr>> /\ rd' = NoReads
 DataNext ==
   \/ \E a \in Agents : Write(a, wr.n + 1, PLen) \/ WriteStun(a) \/ (MaxPause > 0 /\ (PauseRead(a) \/ ResumeRead(a)))
